@@ -1,6 +1,6 @@
 (* Top-level dispatcher of the extracted model: first token selects the domain. *)
 From Coq Require Import List NArith Bool String.
-From PyFS Require Import Base.PyStr Base.Render Path.PathRun FS.Ops FS.FsRun Run.RunMisc Run.RunGlobRe Run.RunTreeCopy Run.RunTreeArch.
+From PyFS Require Import Base.PyStr Base.Render Path.PathRun FS.Ops FS.FsRun Run.RunMisc Run.RunGlobRe Run.RunTreeCopy Run.RunTreeArch Run.RunComposite.
 Import ListNotations.
 Local Open Scope string_scope.
 
@@ -18,6 +18,7 @@ Definition dispatch (tokens : list str) : str :=
     else if is_name dom "globre" then run_globre name args
     else if is_name dom "treecopy" then run_treecopy name args
     else if is_name dom "treearch" then run_treearch name args
+    else if is_name dom "composite" then run_composite name args
     else lit "?domain"
   | _ => lit "?empty"
   end.
